@@ -323,10 +323,12 @@ func reloadKeys(keys []ecdsakeygen.LocalPartySaveData) []ecdsakeygen.LocalPartyS
 		if err := jsonUnmarshal(bz, &out[i]); err != nil {
 			panic(err)
 		}
+		// the application knows which curve its key is on and says so after loading
+		ec := k.ECDSAPub.Curve()
 		for _, b := range out[i].BigXj {
-			b.SetCurve(tss.S256())
+			b.SetCurve(ec)
 		}
-		out[i].ECDSAPub.SetCurve(tss.S256())
+		out[i].ECDSAPub.SetCurve(ec)
 	}
 	return out
 }
